@@ -111,6 +111,16 @@ class C13:
             a_['guess'] = guesses[excluded] = round(t * 1.012, 6)
             a_['hi'] = round(max(a_['hi'], t * 1.05), 6)
 
+        # a starting value exactly on one of its prior's bounds
+        onbound = None
+        cand = [k for k in free if priors[k]['ctor'] == 'uniform'
+                and k != excluded]
+        if start != 'truth' and cand and rng.random() < 0.15:
+            onbound = rng.choice(cand)
+            a_ = priors[onbound]['args']
+            side = 'hi' if a_['guess'] > truth[onbound] else 'lo'
+            a_[side] = a_['guess']
+
         def v(k):
             return priors[k] if k in priors else truth[k]
         sc_args = {'n': v('n'), 'r': v('r'),
@@ -259,7 +269,7 @@ class C13:
         return {'config': {'faults': faults, 'truth': truth, 'free': free,
                            'guesses': guesses, 'priors': priors,
                            'start': start, 'full': full, 'lens': lens,
-                           'excluded': excluded,
+                           'excluded': excluded, 'onbound': onbound,
                            'node': {'epoch': 1.6e9 + rng.randrange(10 ** 6),
                                     'tick': rfloat(rng, 0.001, 30.0)}},
                 'events': b.events}
@@ -483,6 +493,12 @@ class C13:
                 return
         if cfg.get('excluded'):
             return      # the generating parameters are out of reach
+        if cfg.get('onbound') and fev['tags'].get('sub'):
+            # a start on a bound *and* a random pixel subset: the r-z-alpha
+            # valley is flat enough for the search to end early (1% off with
+            # the unmodified minimiser); recovery from a bound is judged on
+            # full images only
+            return
         truth = cfg['truth']
         worst = 0.0
         for k in cfg['free']:
